@@ -98,6 +98,112 @@ type cprog struct {
 
 var propNames = []string{"z", "a", "m", "b", "y", "k", "Q", "c9", "x_1", "d"}
 
+// genKeyedOpsProgram: library functions over string-keyed arrays built by literals; the result of each
+// is printed as keys=values and must come out in the order PHP defines (insertion order of the
+// operands), on every run.
+func genKeyedOpsProgram(rt *rapid.T) cprog {
+	type kv struct {
+		k string
+		v int
+	}
+	pool := []string{"z", "k", "y", "x", "w", "v", "alpha", "B", "m2", "q"}
+	mk := func(label string, lo, hi int) []kv {
+		n := rapid.IntRange(lo, hi).Draw(rt, label+"n")
+		ks := rapid.Permutation(pool).Draw(rt, label+"perm")[:n]
+		out := make([]kv, n)
+		for i, k := range ks {
+			out[i] = kv{k, rapid.IntRange(1, 6).Draw(rt, label+"v")}
+		}
+		return out
+	}
+	lit := func(a []kv) string {
+		var ps []string
+		for _, e := range a {
+			ps = append(ps, fmt.Sprintf("'%s' => %d", e.k, e.v))
+		}
+		return "[" + strings.Join(ps, ", ") + "]"
+	}
+	show := func(a []kv) string {
+		var ks, vs []string
+		for _, e := range a {
+			ks = append(ks, e.k)
+			vs = append(vs, fmt.Sprint(e.v))
+		}
+		return strings.Join(ks, ",") + "=" + strings.Join(vs, ",") + "\n"
+	}
+	idx := func(a []kv, k string) int {
+		for i, e := range a {
+			if e.k == k {
+				return i
+			}
+		}
+		return -1
+	}
+	A, B := mk("a", 2, 7), mk("b", 2, 7)
+	var sb, exp strings.Builder
+	sb.WriteString("<?php\nfunction show($r) { echo implode(',', array_keys($r)), '=', implode(',', array_values($r)), \"\\n\"; }\n")
+	fmt.Fprintf(&sb, "$a = %s;\n$b = %s;\n", lit(A), lit(B))
+	// array_merge / array_replace: A's order, B's values win, B's new keys appended in B's order
+	merged := append([]kv{}, A...)
+	for _, e := range B {
+		if i := idx(merged, e.k); i >= 0 {
+			merged[i].v = e.v
+		} else {
+			merged = append(merged, e)
+		}
+	}
+	sb.WriteString("show(array_merge($a, $b));\nshow(array_replace($a, $b));\n")
+	exp.WriteString(show(merged) + show(merged))
+	// union: A's entries win
+	union := append([]kv{}, A...)
+	for _, e := range B {
+		if idx(union, e.k) < 0 {
+			union = append(union, e)
+		}
+	}
+	sb.WriteString("show($a + $b);\n")
+	exp.WriteString(show(union))
+	// array_values / array_keys / foreach
+	sb.WriteString("echo implode(',', array_values($b)), \"\\n\";\nforeach ($b as $k => $v) { echo $k, ':', $v, ';'; }\necho \"\\n\";\n")
+	var vs, fe []string
+	for _, e := range B {
+		vs = append(vs, fmt.Sprint(e.v))
+		fe = append(fe, fmt.Sprintf("%s:%d;", e.k, e.v))
+	}
+	exp.WriteString(strings.Join(vs, ",") + "\n" + strings.Join(fe, "") + "\n")
+	// array_slice with preserved keys
+	off := rapid.IntRange(0, len(A)-1).Draw(rt, "off")
+	ln := rapid.IntRange(1, len(A)).Draw(rt, "len")
+	end := off + ln
+	if end > len(A) {
+		end = len(A)
+	}
+	fmt.Fprintf(&sb, "show(array_slice($a, %d, %d, true));\n", off, ln)
+	exp.WriteString(show(A[off:end]))
+	// array_unique: the first entry of each value stays
+	var uq []kv
+	seen := map[int]bool{}
+	for _, e := range merged {
+		if !seen[e.v] {
+			seen[e.v] = true
+			uq = append(uq, e)
+		}
+	}
+	sb.WriteString("show(array_unique(array_merge($a, $b)));\n")
+	exp.WriteString(show(uq))
+	// array_filter keeps keys and order
+	th := rapid.IntRange(1, 5).Draw(rt, "th")
+	var fl []kv
+	for _, e := range union {
+		if e.v > th {
+			fl = append(fl, e)
+		}
+	}
+	fmt.Fprintf(&sb, "show(array_filter($a + $b, function ($v) { return $v > %d; }));\n", th)
+	exp.WriteString(show(fl))
+	return cprog{Src: sb.String(), Expected: exp.String(), Classes: 0, Entries: len(merged)}
+}
+
 func genClassProgram(rt *rapid.T) cprog {
 	var sb, exp strings.Builder
 	sb.WriteString("<?php\n")
@@ -325,7 +431,7 @@ func TestC20(t *testing.T) {
 	cfg := sb.LoadConfig("C20")
 	rec := sb.NewRec(cfg)
 	defer rec.Flush()
-	rec.R.Rule = "generated class programs (1-3 classes with 1-6 declared properties in a drawn order, dynamic properties, clones, a keyed array built by insertion, case-insensitive class lookup; enumeration through foreach / json_encode) and generated control-flow programs, each run k times on fresh VMs in one process and (a share) k times in fresh CLI processes; the statically deterministic corpus files run k times in fresh processes; ordered pairs (A, B) of residue-leaving programs run as [A, B] vs [B] in one process. Non-trivial = the program defines >= 2 classes or enumerates an object / array with >= 3 entries; pairs share a name; distinct by program text."
+	rec.R.Rule = "generated class programs (1-3 classes with 1-6 declared properties in a drawn order, dynamic properties, clones, a keyed array built by insertion, case-insensitive class lookup; enumeration through foreach / json_encode), generated library programs over string-keyed arrays (array_merge, array_replace, +, array_values, array_slice, array_unique, array_filter, foreach) with the PHP-defined result order as oracle, and generated control-flow programs, each run k times on fresh VMs in one process and (a share) k times in fresh CLI processes; the statically deterministic corpus files run k times in fresh processes; ordered pairs (A, B) of residue-leaving programs run as [A, B] vs [B] in one process. Non-trivial = the program defines >= 2 classes or enumerates an object / array with >= 3 entries; pairs share a name; distinct by program text."
 	pool := &sb.Pool{}
 	defer pool.Close()
 	dl := time.Now().Add(budget(cfg, 90, 1200))
@@ -451,6 +557,12 @@ func TestC20(t *testing.T) {
 			return c20Repeat(pool, rec, dir, src, k, false, "control-flow program")
 		}
 		cp := genClassProgram(rt)
+		what := "class program"
+		if rapid.IntRange(0, 2).Draw(rt, "keyedops") == 0 {
+			cp = genKeyedOpsProgram(rt)
+			what = "keyed-array library program"
+			rec.Label("program.keyed-ops", cp.Src)
+		}
 		if cp.Classes >= 2 || cp.Entries >= 3 {
 			rec.NonTrivial(cp.Src)
 		}
@@ -459,7 +571,7 @@ func TestC20(t *testing.T) {
 		if useCLI {
 			cliDone++
 		}
-		if f := c20Repeat(pool, rec, dir, cp.Src, k, useCLI, "class program"); f != nil {
+		if f := c20Repeat(pool, rec, dir, cp.Src, k, useCLI, what); f != nil {
 			return f
 		}
 		if cp.Expected != "" {
